@@ -228,91 +228,55 @@ def get_emodulus(deform: float | np.array,
                               flow_rate=flow_rate, temperature=temperature,
                               model=visc_model)
 
-    if isinstance(visco, np.ndarray):
-        # New in dclab 0.20.0: Computation for viscosities array
-        # Convert the input area_um to that of the LUT (deform does not change)
-        scale_kw = {"channel_width_in": channel_width,
-                    "channel_width_out": lut_meta["channel_width"],
-                    "inplace": False}
-        datax_4lut = scale_feature(feat=featx, data=datax, **scale_kw)
-        deform_4lut = np.array(deform, dtype=float, copy=copy)
+    # The event data are converted to the scale of the LUT and the
+    # interpolated emodulus is converted back (with a global or with
+    # per-event viscosities, new in dclab 0.20.0). The LUT itself is
+    # never scaled: the interpolation grid (and thus the triangulation)
+    # must not depend on the measurement setup or on whether the
+    # viscosity is given per event or globally.
+    # Convert the input area_um to that of the LUT (deform does not change)
+    scale_kw = {"channel_width_in": channel_width,
+                "channel_width_out": lut_meta["channel_width"],
+                "inplace": False}
+    datax_4lut = scale_feature(feat=featx, data=datax, **scale_kw)
+    deform_4lut = np.array(deform, dtype=float, copy=copy)
 
-        # Normalize interpolation data such that the spacing for
-        # area and deformation is about the same during interpolation.
-        featx_norm = lut[:, 0].max()
-        normalize(lut[:, 0], featx_norm)
-        normalize(datax_4lut, featx_norm)
+    # Normalize interpolation data such that the spacing for
+    # area and deformation is about the same during interpolation.
+    featx_norm = lut[:, 0].max()
+    normalize(lut[:, 0], featx_norm)
+    normalize(datax_4lut, featx_norm)
 
-        defo_norm = lut[:, 1].max()
-        normalize(lut[:, 1], defo_norm)
-        normalize(deform_4lut, defo_norm)
+    defo_norm = lut[:, 1].max()
+    normalize(lut[:, 1], defo_norm)
+    normalize(deform_4lut, defo_norm)
 
-        # Perform interpolation
-        emod = spint.griddata((lut[:, 0], lut[:, 1]), lut[:, 2],
-                              (datax_4lut, deform_4lut),
-                              method='linear')
+    # Perform interpolation
+    emod = spint.griddata((lut[:, 0], lut[:, 1]), lut[:, 2],
+                          (datax_4lut, deform_4lut),
+                          method='linear')
 
-        if extrapolate:
-            # New in dclab 0.23.0: Perform extrapolation outside of the LUT
-            # This is not well-tested and thus discouraged!
-            extrapolate_emodulus(lut=lut,
-                                 datax=datax_4lut,
-                                 deform=deform_4lut,
-                                 emod=emod,
-                                 deform_norm=defo_norm,
-                                 inplace=True)
+    if extrapolate:
+        # New in dclab 0.23.0: Perform extrapolation outside of the LUT
+        # This is not well-tested and thus discouraged!
+        extrapolate_emodulus(lut=lut,
+                             datax=datax_4lut,
+                             deform=deform_4lut,
+                             emod=emod,
+                             deform_norm=defo_norm,
+                             inplace=True)
 
-        # Convert the LUT-interpolated emodulus back
-        backscale_kw = {"channel_width_in": lut_meta["channel_width"],
-                        "channel_width_out": channel_width,
-                        "flow_rate_in": lut_meta["flow_rate"],
-                        "flow_rate_out": flow_rate,
-                        "viscosity_in": lut_meta["fluid_viscosity"],
-                        "viscosity_out": visco,
-                        "inplace": True}
-        # deformation is not scaled (no units)
-        scale_feature(feat=featx, data=datax_4lut, **backscale_kw)
-        scale_emodulus(emod, **backscale_kw)
-    else:
-        # Corrections
-        # We correct the LUT, because it contains less points than
-        # the event data. Furthermore, the lut could be cached
-        # in the future, if this takes up a lot of time.
-        scale_kw = {"channel_width_in": lut_meta["channel_width"],
+    # Convert the LUT-interpolated emodulus back
+    backscale_kw = {"channel_width_in": lut_meta["channel_width"],
                     "channel_width_out": channel_width,
                     "flow_rate_in": lut_meta["flow_rate"],
                     "flow_rate_out": flow_rate,
                     "viscosity_in": lut_meta["fluid_viscosity"],
                     "viscosity_out": visco,
                     "inplace": True}
-        # deformation is not scaled (no units)
-        scale_feature(feat=featx, data=lut[:, 0], **scale_kw)
-        scale_emodulus(lut[:, 2], **scale_kw)
-
-        # Normalize interpolation data such that the spacing for
-        # area and deformation is about the same during interpolation.
-        featx_norm = lut[:, 0].max()
-        normalize(lut[:, 0], featx_norm)
-        normalize(datax, featx_norm)
-
-        defo_norm = lut[:, 1].max()
-        normalize(lut[:, 1], defo_norm)
-        normalize(deform, defo_norm)
-
-        # Perform interpolation
-        emod = spint.griddata((lut[:, 0], lut[:, 1]), lut[:, 2],
-                              (datax, deform),
-                              method='linear')
-
-        if extrapolate:
-            # New in dclab 0.23.0: Perform extrapolation outside of the LUT
-            # This is not well-tested and thus discouraged!
-            extrapolate_emodulus(lut=lut,
-                                 datax=datax,
-                                 deform=deform,
-                                 emod=emod,
-                                 deform_norm=defo_norm,
-                                 inplace=True)
+    # deformation is not scaled (no units)
+    scale_feature(feat=featx, data=datax_4lut, **backscale_kw)
+    scale_emodulus(emod, **backscale_kw)
 
     # Let the user know when the emodulus contains too many nan values
     nans = np.sum(np.isnan(emod))
